@@ -247,7 +247,9 @@ def analyse(steps, trailing_notes=()):
                 sent.setdefault((ep, ch, rel), []).append(rec)
                 sent_all.setdefault(ep, []).append(rec)
                 pending_since_emit[ep] = True
-                if bits > 7265 or ch >= 32767:
+                # the library's limit is header + payload <= 7844 bits (utcp_packet.c: MAX_SINGLE_BUNCH_SIZE_BITS); the shortest header
+                # has 27 bits, so a payload above 7817 can never fit (7265 is the C++ layer's fragment size, not this limit)
+                if bits > 7817 or ch >= 32767:
                     V.append(Violation("C14", "accepted-invalid", "over-size / out-of-range send accepted (ret %d)" % r, st))
         if op == "sendfill":
             ep = int(a[0])
